@@ -58,6 +58,9 @@ def kernels(kH, kW, fill):
         k[-1, -1] = 0.0  # asymmetric support
     out["asym_int"] = k / 8.0
     out["ramp"] = (np.arange(1, kH * kW + 1, dtype=float).reshape(kH, kW)) / 16.0
+    # point-symmetric kernel (equal to its 180-degree flip): for an even dimension the centred kernel is NOT symmetric about the origin
+    ks = fill.ints((kH, kW), 1, 9).astype(float)
+    out["pointsym"] = (ks + ks[::-1, ::-1]) / 16.0
     if kW == 2 or kH == 2:
         # two nearly equal taps: the transfer function almost vanishes at the Nyquist frequency of an even-length axis
         # (invertible blur, cond(A) ~ 2.6e5), zeros elsewhere
